@@ -160,7 +160,22 @@ class Config:
                 elif d.hi == const:
                     d.hi = const - 1
             return v
-        return self.test_opaque(f"{show(leaf)} == {const!r}")
+        # unknown / infinite domain: remember what the equality tests have established
+        excl = getattr(d, "_excluded", None)
+        if excl is None:
+            excl = set()
+            setattr(d, "_excluded", excl)
+        try:
+            if const in excl:
+                return False
+        except TypeError:
+            return self.test_opaque(f"{show(leaf)} == {const!r}")
+        v = self._fork(f"{show(leaf)} == {const!r}")
+        if v:
+            d.vals = {const}
+        else:
+            excl.add(const)
+        return v
 
     def test_cmp(self, leaf, d: Dom, op: str, const: int) -> bool:
         """leaf <op> const for integers; op in < <= > >="""
